@@ -32,6 +32,23 @@ def show(v):
     return "None"
 
 
+def rem_alignment_overflows(rec):
+    """The input class of the known finding in rust_decimal 1.31's remainder (its `rem_full` path): `a % b` / `a %= b` where the
+    dividend has the smaller scale, cannot be scaled up to the divisor's scale within 96 bits, and the divisor's mantissa does
+    not fit 32 bits.  (Other remainders - small divisors, equal scales - take other code paths and are exact.)"""
+    if rec.get("op") not in ("%", "%=") or len(rec["args"]) != 2 or any(a[0] != "num" for a in rec["args"]):
+        return False
+    m = [sum(x * 10000 ** i for i, x in enumerate(a[2])) for a in rec["args"]]
+    sc = [a[3] for a in rec["args"]]
+    return sc[0] < sc[1] and m[1] >= 2 ** 32 and m[0] * 10 ** (sc[1] - sc[0]) > 2 ** 96 - 1
+
+
+def builtin_key(pid, rec, kind, actual):
+    if kind == "value" and actual[0] == "ok" and rem_alignment_overflows(rec):
+        return "%s/rem/alignment-exceeds-96-bits" % pid
+    return "%s/builtins/%s/%s" % (pid, kind, rec["op"])
+
+
 def show_case(r):
     a = [show(x) for x in r["args"]]
     if r["kind"] == "bin":
@@ -83,7 +100,7 @@ def builtins_model_and_replay(run, name, family, idxset, pid, profiles=("dev",),
             if "mismatch" in o:
                 rec = recs[o["mismatch"]]
                 kind = "panic" if o["actual"][0] == "panic" else ("err-expected" if o["expected"][0] == "err" else "value")
-                run.violation("%s/builtins/%s/%s" % (pid, kind, o["op"]),
+                run.violation(builtin_key(pid, rec, kind, o["actual"]),
                               "%s [%s build%s]: spec %s, engine %s (%s)" % (show_case(rec), prof, ", operands as literals" if o["literals"] else "", show_out(o["expected"]), show_out(o["actual"]), o["why"]),
                               {"family": "builtins", "record": rec, "actual": o["actual"], "profile": prof, "literals": o["literals"]})
         run.leg("R:Builtins/%s/%s" % (name, prof), applications=s["applications"], mismatches=s["mismatches"], dontcare=s["dontcare"], expected_err=s["expected_err"])
@@ -117,7 +134,7 @@ def validate_builtins_trace(run, name, recs, pid, shards=16):
                 nm += 1
                 rec = parts[i][p["mismatch"]]
                 kind = "panic" if rec["actual"][0] == "panic" else ("err-expected" if p["expected"][0] == "err" else "value")
-                run.violation("%s/builtins/%s/%s" % (pid, kind, rec["op"]), "%s: spec %s, engine %s" % (show_case(rec), show_out(p["expected"]), show_out(rec["actual"])),
+                run.violation(builtin_key(pid, rec, kind, rec["actual"]), "%s: spec %s, engine %s" % (show_case(rec), show_out(p["expected"]), show_out(rec["actual"])),
                               {"family": "builtins-trace", "record": rec, "expected": p["expected"]})
     run.traces += len(recs)
     run.dontcare += classes.get("dc", 0)
